@@ -554,7 +554,10 @@ def boolified(fi: FuncInfo) -> FuncInfo:
         def visit_Return(self, n):
             if n.value is None or isinstance(n.value, ast.Constant):
                 return n
-            t = ast.If(n.value, [ast.Return(ast.Constant(True))], [ast.Return(ast.Constant(False))])
+            v = n.value
+            while isinstance(v, ast.Call) and isinstance(v.func, ast.Name) and v.func.id == "bool" and len(v.args) == 1 and not v.keywords:
+                v = v.args[0]
+            t = ast.If(v, [ast.Return(ast.Constant(True))], [ast.Return(ast.Constant(False))])
             return ast.fix_missing_locations(ast.copy_location(t, n))
 
     root = copy.deepcopy(fi.node)
